@@ -60,7 +60,8 @@ def _case(draw):
     elif rel == "signs-headtail":
         case["speed"] = draw(st.floats(3.0, 60.0))
     elif rel == "in-place":
-        case["edit"] = draw(st.sampled_from(["mirror", "calm", "speed", "direction", "until"]))
+        case["edit"] = draw(st.sampled_from(["mirror", "calm", "speed", "direction", "until", "redisplay", "redisplay"]))
+        case["unit"] = draw(st.sampled_from(["Meter", "Yard", "Kilometer", "Inch", "Mile", "Centimeter"]))
         case["val"] = draw(st.floats(0.0, 1.0))
     return case
 
@@ -285,6 +286,13 @@ def check(case):
             elif e == "direction":
                 w[1] = (2 * case["val"] - 1) * math.pi
                 w_obj.direction_from = pb.Angular.Radian(w[1])
+            elif e == "redisplay":
+                # showing a quantity in another unit changes no magnitude (C13): only every other wind, so that the
+                # displayed numbers of the list are in different units afterwards
+                if (sh._winds.index(w_obj) % 2) == 0:
+                    w_obj.until_distance << pb.Unit[case.get("unit", "Meter")]
+                    w_obj.velocity << pb.Unit.KMH
+                    w_obj.direction_from << pb.Unit.Mil
             else:
                 w[2] = 10.0 + case["val"] * 2 * R
                 w_obj.until_distance = pb.Distance.Foot(w[2])
